@@ -70,3 +70,7 @@ check("C19", "Hypothesis (collection, validator subset/order, rule permutation, 
       "Rule collections with adversarial detection names, unused detections, empty selectors and duplicate ids / titles / file names are validated with drawn subsets and orders of the built-in validators (those needing the network excluded): dict form and queries of every rule must be unchanged, the issue multiset must not depend on rule or validator order, and unused-detection / dangling-selector / identifier / title / file-name issues and exclusions must match an independent computation exactly.",
       "Trusted: vf/ref/conditions.py; issue order not compared.",
       "DESIGN.md section 3, C19")
+check("C20", "Hypothesis corpora x sampled (PYTHONHASHSEED, random.seed, process start) environments; differential oracle on SHA-256 digests from a fixed driver run in sub-processes",
+      "Corpora assembled from the other properties' generators plus order-sensitive specials (one-to-many mappings, nested pipelines, multi-flag regular expressions, added conditions, filters, correlation rules, every error class incl. multi-key messages, validators) are loaded, converted and validated by one driver script in sub-processes under different hash seeds, random seeds and repeated starts; all digests per corpus must agree and no query may contain an internal random identifier.",
+      "Sampling of hash seeds and process starts; random part of injected names normalised in validation issue texts only.",
+      "DESIGN.md section 3, C20")
